@@ -180,6 +180,13 @@ def cases(ctx):
         ("literal.nested_four_levels", "Value.in_([[{'k': {'mypath': a, 'n': 1}}]])", [("a", U)]),
         ("literal.nested.escaped_deep", "Value.equal_to({'cfg': {'src': {'\\\\path': [a]}}})", [("a", U)]),
         ("path.in_map_value", "Value.equal_to({'k': DataPath('ref'), 'j': a})", [("a", "int")]),
+        # data-path arguments with unusual container-value parts: key != index, labelled parts, an int-keyed MapValue on a list
+        ("path.mol_key_ne_index", "Value.equal_to(DataPath('a', MapOrListValue(key='k', index=0)))", []),
+        ("path.mol_key_ne_index.list", "Value.equal_to(DataPath('l', MapOrListValue(key='k', index=1)))", []),
+        ("path.labelled_part", "Value.equal_to(DataPath('a', MapValue(key='k', label='lab')))", []),
+        ("path.labelled_first_part", "Value.equal_to(DataPath(MapValue(key='ref', label='lab')).first())", []),
+        ("path.mapvalue_int_key", "Value.equal_to(DataPath('l', MapValue(key=1)))", []),
+        ("path.listvalue_index", "Value.equal_to(DataPath('l', ListValue(index=1)).first())", []),
         # data paths as values of a mapping argument whose keys themselves look like path specs
         ("path.in_kwargs.kwname_path", "Value.items_contain(path=DataPath('lim', s))", [("s", "str")]),
         ("path.in_map_value.key_path", "Value.equal_to({'path': DataPath('ref'), 'j': a})", [("a", "int")]),
